@@ -68,13 +68,16 @@ Fixpoint mismatches (i : nat) (cs : list (sx * sx)) : list (nat * sx) :=
   | [] => []
   | (m, e) :: r => if sx_eqb m e then mismatches (S i) r else (i, m) :: mismatches (S i) r
   end.
+(* the terminator is produced by the base case so that no [++] ever has a long
+   left operand (String.append recurses on it: a long mismatch text overflowed
+   the stack) *)
 Fixpoint show_bad (l : list (nat * sx)) : string :=
   match l with
-  | [] => ""
+  | [] => "END"
   | (i, m) :: r => show_nat i ++ tab ++ show_sx m ++ nl ++ show_bad r
   end.
 Definition run_cases (cs : list (sx * sx)) : string :=
-  "BEGIN" ++ nl ++ show_bad (mismatches 0 cs) ++ "END".
+  "BEGIN" ++ nl ++ show_bad (mismatches 0 cs).
 
 (* helpers to build sx from common types *)
 Definition sx_bool (b : bool) : sx := SA (if b then "T" else "F").
